@@ -118,6 +118,20 @@ def stmt_failure(desc, frame, peaks, v, offset, method, upsample=False):
         elif close(ht[2][0], hb[2][0], 10 * rt, sc, 'h') is not None:
             return 'translation by %s of a peak list with half-pixel positions %s: centres %s, expected %s, heights %s vs %s' % (
                 v, pf.tolist(), ht[0][0].tolist(), (hb[0][0] + np.array(v)).tolist(), ht[2][0].tolist(), hb[2][0].tolist())
+    # offset on wide-dtype frames that sit on a large pedestal (beyond float32's integer range), through the batch entry points
+    for dtw, ped in ((np.int32, 20000001), (np.float64, 2.0 ** 30), (np.int64, 2 ** 40)):
+        fw = (np.rint(frame).astype(np.int64) + int(ped)).astype(dtw)
+        bw = fn(pattern, fw[np.newaxis], np.asarray(peaks))
+        ow = fn(pattern, (fw + dtw(int(offset)))[np.newaxis], np.asarray(peaks))
+        if not np.array_equal(ow[0], bw[0]):
+            if close(ow[2][0], bw[2][0], 1e-3, sc, 'h') is not None:
+                return 'offset %s on a %s frame with pedestal %s: centres %s vs %s, heights %s vs %s' % (
+                    offset, np.dtype(dtw).name, ped, ow[0][0].tolist(), bw[0][0].tolist(), ow[2][0].tolist(), bw[2][0].tolist())
+        else:
+            for f in (close(ow[2][0], bw[2][0], 1e-3, sc, 'offset %s on a %s frame with pedestal %s: heights' % (offset, np.dtype(dtw).name, ped)),
+                      close(ow[1][0], bw[1][0], 1e-3, 1.0, 'offset %s on a %s frame with pedestal %s: refined' % (offset, np.dtype(dtw).name, ped))):
+                if f:
+                    return f
     # offset on unsigned-integer frames whose darkest pixel is exactly 0 (raw counting-detector data): min - 1 must not wrap
     fi = frame - frame.min()
     if float(fi.max()) + offset < 2 ** 32 - 1 and np.array_equal(fi, np.rint(fi)):
